@@ -208,3 +208,21 @@ pub fn eval_uv<F: PrimeField>(p: &DensePolynomial<F>, z: &F) -> F {
     }
     acc
 }
+
+pub fn kzg_audit<E: Pairing>(
+    powers_of_gamma_g: &[E::G1Affine],
+    lp: &LabeledPolynomial<E::ScalarField, DensePolynomial<E::ScalarField>>,
+    comm: &kzg10::Commitment<E>,
+    plain: &kzg10::Commitment<E>,
+    state: &kzg10::Randomness<E::ScalarField, DensePolynomial<E::ScalarField>>,
+) -> Vec<String> {
+    let mut fails = vec![];
+    check_blinder("rand", &state.blinding_polynomial.coeffs, lp.hiding_bound(), &mut fails);
+    if state.blinding_polynomial.coeffs.len() > powers_of_gamma_g.len() {
+        fails.push("blinding polynomial longer than the published hiding generators".into());
+    }
+    if comm.0.into_group() - plain.0.into_group() != naive(powers_of_gamma_g, &state.blinding_polynomial.coeffs) {
+        fails.push("commitment - non-hiding commitment != <blinding coefficients, powers_of_gamma_g>".into());
+    }
+    fails
+}
